@@ -143,7 +143,19 @@ func (s tsState) clone() tsState {
 
 // Analyze runs the status dataflow for the task identified by key in fn.
 func (ts *TS) Analyze(fn *ssa.Function, key ssa.Value, entry uint32) (sites []TSite, atCall map[ssa.Instruction]uint32) {
+	sites, atCall, _ = ts.analyze(fn, key, entry)
+	return
+}
+
+// EdgeStates returns, for every CFG edge, the set of statuses the task can be in when the edge is taken.
+func (ts *TS) EdgeStates(fn *ssa.Function, key ssa.Value, entry uint32) map[[2]*ssa.BasicBlock]uint32 {
+	_, _, e := ts.analyze(fn, key, entry)
+	return e
+}
+
+func (ts *TS) analyze(fn *ssa.Function, key ssa.Value, entry uint32) (sites []TSite, atCall map[ssa.Instruction]uint32, edgeSt map[[2]*ssa.BasicBlock]uint32) {
 	atCall = map[ssa.Instruction]uint32{}
+	edgeSt = map[[2]*ssa.BasicBlock]uint32{}
 	in := map[*ssa.BasicBlock]tsState{}
 	in[fn.Blocks[0]] = tsState{cur: entry, fresh: map[ssa.Value]bool{}, set: true}
 	readyObs := map[ssa.Value]ssa.Value{} // bool value -> status observation it tests
@@ -298,12 +310,14 @@ func (ts *TS) Analyze(fn *ssa.Function, key ssa.Value, entry uint32) (sites []TS
 							}
 						}
 					}
+					edgeSt[[2]*ssa.BasicBlock{b, succ}] |= ns.cur
 					merge(succ, ns)
 				}
 				continue
 			}
 		}
 		for _, succ := range b.Succs {
+			edgeSt[[2]*ssa.BasicBlock{b, succ}] |= s.cur
 			merge(succ, s)
 		}
 	}
@@ -315,7 +329,7 @@ func (ts *TS) Analyze(fn *ssa.Function, key ssa.Value, entry uint32) (sites []TS
 	for _, k := range keys {
 		sites = append(sites, *siteAt[k])
 	}
-	return sites, atCall
+	return sites, atCall, edgeSt
 }
 
 // TaskKeysSet lists the distinct task keys that have their status set in fn.
